@@ -160,7 +160,26 @@ func runC15(c *eng.Ctx) {
 		mem := facts.Find(facts.At(rk.Instr), "true", func(d string, _ ssa.Value) bool { return strings.Contains(d, ".keys.Contains(key)") }, nil)
 		c.Check(len(mem) > 0, "rank-only-for-members", rk.Instr, f, "the rank is computed only for keys the table contains (an absent key is reported absent, not mapped to a neighbour)", "facts: "+strings.Join(facts.Render(facts.At(rk.Instr)), " ; "))
 		gb := c.One(f, eng.CallTo(mrT+".getBlock"), "getBlock(rank-1)")
-		c.Check(strings.Contains(p.Desc(eng.CallArgs(gb.Instr.(*ssa.Call))[0]), "Rank(key)") && strings.Contains(p.Desc(eng.CallArgs(gb.Instr.(*ssa.Call))[0]), "-1"), "index-is-rank-1", gb.Instr, f, "the block index is rank-1 (rank counts the key itself)", "index "+p.Desc(eng.CallArgs(gb.Instr.(*ssa.Call))[0]))
+		idxArg := eng.CallArgs(gb.Instr.(*ssa.Call))[0]
+		rankMinus1 := strings.Contains(p.Desc(idxArg), "Rank(key)") && strings.Contains(p.Desc(idxArg), "-1")
+		// ... also when the position comes out of a helper (positionOf(key) (int, bool)): every value it can be is Rank(...) - 1
+		if !rankMinus1 {
+			srcs := leafSources(idxArg)
+			rankMinus1 = len(srcs) > 0
+			for _, src := range srcs {
+				if k, isC := eng.ConstInt(src); isC && k == 0 {
+					continue // the zero handed back together with "not found"
+				}
+				base, off := eng.SplitConstOffset(eng.Unwrap(src))
+				if cv, isCv := eng.Unwrap(src).(*ssa.Convert); isCv {
+					base, off = eng.SplitConstOffset(eng.Unwrap(cv.X))
+				}
+				if off != -1 || !eng.DependsOn(base, func(x ssa.Value) bool { return calleeName(x) == "Rank" }) {
+					rankMinus1 = false
+				}
+			}
+		}
+		c.Check(rankMinus1, "index-is-rank-1", gb.Instr, f, "the block index is rank-1 (rank counts the key itself)", "index "+p.Desc(idxArg))
 	})
 
 	// ---- 4. footer layout --------------------------------------------------------------------------------------------------------------
@@ -457,7 +476,11 @@ func mergedIteratorHeap(c *eng.Ctx) {
 				c.Check(!before, "emit-before-advance:"+fld, st.Instr, f, "the current entry is captured before the item is advanced to its iterator's next entry", "")
 			}
 		}
-		iq := c.Fn("kv/table.mergedIterator.initQueue")
+		// the queue is filled and heapified by initQueue, or in place in the constructor
+		iq := p.Func("kv/table.mergedIterator.initQueue")
+		if iq == nil || iq.Blocks == nil {
+			iq = c.Fn("kv/table.NewMergedIterator")
+		}
 		c.Check(len(p.Sites(iq, eng.CallTo("container/heap.Init"))) == 1, "heap-initialised", nil, iq, "the queue is heapified after it is filled", "")
 		less := c.Fn("kv/table.priorityQueue.Less")
 		for _, r := range eng.SuccessReturns(less) {
